@@ -407,7 +407,7 @@ BODY_JUNK = [
     ('2^63', 'int>=2^63', b'%d' % I63), ('2^64', 'int>=2^63', b'%d' % I64),
     ('10^30', 'int>=2^63', b'%d' % E30), ('-2^63-1', 'int<-2^63', b'%d' % (-I63 - 1)),
     ('NaN', 'nan', b'NaN'), ('Infinity', 'inf', b'Infinity'), ('-Infinity', 'inf', b'-Infinity'),
-    ('1e400', 'float:overflow', b'1e400'),
+    ('1e400', 'float:overflow', b'1e400'), ('-1e400', 'float:overflow', b'-1e400'),
     ('""', 'str:empty', b'""'), ('" "', 'str:blank', b'" "'), ('"x"', 'str:short', b'"x"'),
     ('256A', 'str:long', _j('A' * 256)), ('nonascii', 'str:nonascii', _j(NONASCII)),
     ('nul', 'str:ctrl', b'"x\\u0000y"'), ('newline', 'str:ctrl', b'"x\\n"'),
@@ -415,6 +415,8 @@ BODY_JUNK = [
     ('badutf8', 'bytes:invalid-utf8', b'"\xff\xfe"'),
     ('[]', 'list', b'[]'), ('{}', 'dict', b'{}'),
     ('deep', 'deep', b'[' * 100 + b']' * 100),
+    # deep enough to exhaust the recursion limit while validating / reporting, not while decoding
+    ('deep500', 'deep', b'[' * 500 + b']' * 500), ('deep900', 'deep', b'[' * 900 + b']' * 900),
 ]
 BODY_JUNK_BY_ID = {j[0]: j for j in BODY_JUNK}
 # reduced set used for pairs (one representative per behaviour class)
@@ -731,6 +733,7 @@ def query_ops(query, d2=False):
         ops.append((i, 'del', None, k, 'delete'))
         ops.append((i, 'dup', None, k, 'repeated'))
         ops.append((i, 'conflict', None, k, 'conflicting'))
+        ops.append((i, 'conflict1st', None, k, 'conflicting-first'))
         if not d2:
             ops.append((i, 'noeq', None, k, 'no-equals-sign'))
             for tid, tcls, _ in tweaks(v):
@@ -779,6 +782,7 @@ def apply_query(query, ops):
     if len(set(map(repr, pos))) != len(pos):
         return None
     tail = []
+    head = []
     suffix = ''
     dels = []
     for o in ops:
@@ -799,6 +803,8 @@ def apply_query(query, ops):
             tail.append('%s=%s' % (k, v))
         elif op == 'conflict':
             tail.append('%s=%s' % (k, 'x'))
+        elif op == 'conflict1st':
+            head.append('%s=%s' % (k, 'x'))
         elif op == 'noeq':
             q[i][2] = False
         elif op == 'tweak':
@@ -820,7 +826,7 @@ def apply_query(query, ops):
             raise ValueError(op)
     parts = [('%s=%s' % (k, v)) if eq else k for n, (k, v, eq) in enumerate(q)
              if n not in dels]
-    return '&'.join(parts + tail) + suffix
+    return '&'.join(head + parts + tail) + suffix
 
 
 def path_ops(segs, d2=False):
